@@ -217,7 +217,7 @@ def rule_unreg(ctx):
                 bad = True
                 continue
             w = pa.world
-            rest = [show(x) for x in w.router.attrs["clients"].items]
+            rest = [show(x) for x in w.table("clients").items]
             if f"client{who}" in rest or f"client{who}" in w.policy_snapshot() or len(rest) != 2 or len(w.policy_snapshot()) != 2:
                 ctx.violated("C18.UNREG", f.short, f"after unregistering client{who}: clients={rest}, policies={sorted(w.policy_snapshot())} - the router still knows the connection (or forgot another one)", fi=f, text="not-forgotten")
                 bad = True
@@ -226,7 +226,7 @@ def rule_unreg(ctx):
 
     _, p2 = run_router(p, wf2, "unregister_client", lambda w: ([w.clients[1]], {}))
     for pa in p2:
-        if pa.outcome != "return" or [show(x) for x in pa.world.router.attrs["clients"].items] != ["client0"] or pa.world.policy_snapshot() != {"client0": {"'A'": "'Also'"}}:
+        if pa.outcome != "return" or [show(x) for x in pa.world.table("clients").items] != ["client0"] or pa.world.policy_snapshot() != {"client0": {"'A'": "'Also'"}}:
             ctx.violated("C18.UNREG", f.short, "unregistering a client that is not (or no longer) registered raises or disturbs the others: close() may run twice", fi=f, text="not-idempotent")
             bad = True
     if not bad:
@@ -238,7 +238,7 @@ def rule_unreg(ctx):
         return w
 
     _, p3 = run_router(p, wf3, "register_client", lambda w: ([w.clients[1]], {}))
-    ok = all(pa.outcome == "return" and pa.world.policy_snapshot().get("client1") == {} and [show(x) for x in pa.world.router.attrs["clients"].items] == ["client0", "client1"] for pa in p3)
+    ok = all(pa.outcome == "return" and pa.world.policy_snapshot().get("client1") == {} and [show(x) for x in pa.world.table("clients").items] == ["client0", "client1"] for pa in p3)
     ctx.check(ok, "C18.UNREG", g.short, "a (re)connecting peer starts with an empty policy map", "register_client does not start the peer from default settings", fi=g, text="reconnect")
 
 
